@@ -25,7 +25,7 @@ def Quirks.current : Quirks :=
     helloAnyVersion := true, resp2Scalars := true, dirtyIncomplete := true,
     bitcountClamp := true, bitcountEmptyCrash := true, bfSignedOverflow64 := true,
     bfSetOverflowUsesSum := true, unlinkKeepsObject := true, getexNoOptPersists := true,
-    bitposPartialEnd := true, bitopEmptyCreates := true }
+    bitposPartialEnd := true, bitopEmptyCreates := true, lcsRunes := true }
 
 def words (s : String) : List String := (s.splitOn " ").filter (· ≠ "")
 
@@ -337,7 +337,7 @@ def allQuirkOff (q : Quirks) : List (String × Quirks) :=
    ("D37", { q with bitcountEmptyCrash := false }), ("D45", { q with bfSignedOverflow64 := false }),
    ("D46", { q with bfSetOverflowUsesSum := false }), ("D63", { q with unlinkKeepsObject := false }),
    ("D60", { q with getexNoOptPersists := false }), ("D62", { q with bitposPartialEnd := false }),
-   ("D61", { q with bitopEmptyCreates := false })]
+   ("D61", { q with bitopEmptyCreates := false }), ("D68", { q with lcsRunes := false })]
 
 /-- observable part of an outcome, for "did this quirk matter on this step" -/
 def outKey (o : Out) : String :=
@@ -382,6 +382,7 @@ def step (d : DState) (line : String) : DState × String :=
           else
             let okHint := replyMatches o.hint o.reply g
             let okCustom := match o.hint with
+              | .custom "hello" => validate "hello" ctx o.st c argv g
               | .custom nm => validate nm ctx d.st c argv g
               | _ => true
             if okHint && okCustom then ({ d with st := o.st }, "ok" ++ tag)
